@@ -45,3 +45,40 @@ Example C15_example :
   = Ok (Some [SSingle 65%N; SSingle 66%N; SRange (Some 120%N) (Some 122%N)])
   /\ known_multiplier IA5String = true /\ union_only inner = true /\ simple_alpha inner = true.
 Proof. vm_compute. repeat split; reflexivity. Qed.
+
+(* inclusion of another constrained string type as the whole constraint (`B ::= IA5String (A)`, `(INCLUDES A)`): the
+   annotation is the one of the included type's own constraints, hence exact under the same conditions *)
+Theorem C15_inclusion_is_included :
+  forall fuel t t' c cs', known_multiplier t = true ->
+    alphabet_annotation_a fuel t [AIncl t' (c :: cs')] = alphabet_annotation fuel t' (c :: cs').
+Proof. exact Proofs.C15.inclusion_is_included. Qed.
+
+Theorem C15_inclusion_exact :
+  forall fuel t t' inner ann,
+    known_multiplier t = true -> known_multiplier t' = true -> union_only inner = true -> simple_alpha inner = true ->
+    alphabet_annotation_a fuel t [AIncl t' [{| cset := El (Alpha inner); cext := false |}]] = Ok ann ->
+    forall c, denote (match ann with Some l => l | None => [] end) c = semb_alpha_rn inner c.
+Proof. exact Proofs.C15.inclusion_exact. Qed.
+
+(* known finding C15-inclusion-in-set-operation: as an operand of `|` the included type is not folded in; the result is
+   no annotation at all (a superset, never the exact set) *)
+Theorem C15_inclusion_in_union_not_exact :
+  let s := El (Single (VStr [120%N]) false) in
+  try_new 6 IA5String {| cset := SetOp Contained Union (El (Alpha s)); cext := false |} = Ok None /\
+  try_new 6 IA5String {| cset := SetOp (Alpha s) Union (El Contained); cext := false |} = Ok None.
+Proof. exact Proofs.C15.inclusion_in_union_ignored. Qed.
+
+(* non-vacuity: B ::= NumericString (A) with A ::= NumericString (FROM ("0".."3" | "7")) *)
+Example C15_inclusion_example :
+  let inner := SetOp (Range (Some (VStr [48]%N)) (Some (VStr [51]%N)) false) Union (El (Single (VStr [55]%N) false)) in
+  alphabet_annotation_a 10 IA5String [AIncl NumericString [{| cset := El (Alpha inner); cext := false |}]]
+  = Ok (Some [SRange (Some 48%N) (Some 51%N); SSingle 55%N]).
+Proof. vm_compute. reflexivity. Qed.
+
+(* the character tables the annotations are computed from (re-translated from the source on every run) are the alphabets
+   X.680 defines for NumericString, PrintableString, VisibleString and IA5String: a character of any code point is in the
+   table exactly when it is in the alphabet *)
+Theorem C15_tables_are_x680 :
+  forall t b c, In t [NumericString; PrintableString; VisibleString; IA5String] ->
+    x680_alphabet t c = Some b -> existsb (N.eqb c) (character_set t) = b.
+Proof. exact Proofs.C15.table_is_x680. Qed.
